@@ -576,3 +576,31 @@ def reaching_def(fn, name, at):
       break
     child, cur = cur, pm.get(id(cur))
   return None
+
+
+def raised_class(mod, exc):
+  """(class name, constructor helper | None) of a raised expression.  `raise C(...)` and `raise C` give (C, None);
+  `raise C.make(...)` where C is a class of `mod` and make is a classmethod / staticmethod of C whose every return is cls(...) or
+  C(...) gives (C, 'make'): the object raised is still a C."""
+  node = exc.func if isinstance(exc, ast.Call) else exc
+  name = (dotted(node) or '?')
+  if isinstance(exc, ast.Call) and isinstance(node, ast.Attribute) and isinstance(node.value, ast.Name) and mod is not None:
+    ci = mod.classes.get(node.value.id)
+
+    def makes_instance(mname, depth=0):
+      m = ci.methods.get(mname)
+      if m is None or depth > 3:
+        return False
+      rets = [r for r in walk_stmts(m.node, into_nested=False) if isinstance(r, ast.Return)]
+      first = m.params()[0] if m.params() else None
+
+      def inst(v):
+        if isinstance(v, ast.Call) and isinstance(v.func, ast.Name) and v.func.id in (first, ci.name):
+          return True
+        # ... or hands the job to another constructor helper of the class: cls.other(...)
+        return isinstance(v, ast.Call) and isinstance(v.func, ast.Attribute) and isinstance(v.func.value, ast.Name) and v.func.value.id in (first, ci.name) and \
+            makes_instance(v.func.attr, depth + 1)
+      return bool(rets) and all(inst(r.value) for r in rets)
+    if ci is not None and makes_instance(node.attr):
+      return (ci.name, node.attr)
+  return (name.split('.')[-1], None)
